@@ -19,6 +19,8 @@ NAMES = {"npm": ["lodash", "@scope/pkg", "@a/b.c", "left-pad"], "crates": ["serd
          "go": ["golang.org/x/text", "github.com/Azure/Go-Autorest", "github.com/BurntSushi/toml"],
          "github": ["actions/checkout", "Owner/Repo"], "jsr": ["@std/path", "@luca/flag"], "pypi": ["requests", "Django", "zope.interface"]}
 VERS = ["1.0.0", "1.1.0", "2.0.0-beta.1", "0.0.1", "10.0.0", "1.0.0+b", "v1", "é"]
+GO_VERS = ["v1.0.0", "v1.1.0", "v2.0.0", "v2.0.0+incompatible", "v2.0.0-beta.1", "v2.0.0-beta.1+incompatible", "v0.0.1",
+           "v10.0.0", "v1.0.0+b", "v1.0.0+a", "v0.0.0-20200101000000-abcdef123456", "v1", "1.0.0", "vx", "v1.2.3-rc.1", "v1.2.3-rc.1+meta"]
 TS = ["2020-01-01T00:00:00Z", "2021-06-01T12:00:00+09:00", "garbage", "", "2020-01-01T00:00:00.123Z"]
 
 
@@ -85,7 +87,10 @@ def gen_body(rng, ad):
         elif k < 22: val = {"message": "API rate limit exceeded"}; adv = None
         return val, adv, {}
     if ad == "go":
-        lines = list(vs)
+        # Go lists are v-prefixed; twins that differ only in build metadata (v2.0.0 / v2.0.0+incompatible),
+        # pseudo-versions and repeated lines are all real (seeded10/C15: a dedup by SemVer precedence dropped a twin)
+        lines = rng.sample(GO_VERS, rng.below(7)) if rng.chance(2, 3) else list(vs)
+        if lines and rng.chance(1, 6): lines.append(lines[0])
         if rng.chance(1, 3): lines.insert(rng.below(len(lines) + 1), "")
         text = "\n".join(lines) + ("\n" if rng.chance(2, 3) else "")
         return text, {l for l in lines if l}, {}
